@@ -102,17 +102,18 @@ def State.placementAllowed (s : State) (now : Nat) (rq v : Nat) (r : Rq) (w : Na
      | some t => now + r.minTime ≤ t
      | none => true)
 
-/-- does the request fit into the free vector without saturation (the per-worker resource rows of the MILP)? -/
-def fitsNow (free : List Nat) (es : List RqEntry) : Bool :=
+/-- does the request fit into the free vector without saturation (the per-worker resource rows of the MILP; an
+`all` entry has the worker total as its coefficient, so it fits only when the whole resource is free)? -/
+def fitsNow (free total : List Nat) (es : List RqEntry) : Bool :=
   es.all fun e => e.res < free.length && (match e.pol with
     | .amount a => a ≤ getD free e.res
-    | .all => true)
+    | .all => getD free e.res == getD total e.res)
 
 /-- one placed single-node task of `create_task_mapping` -/
 def State.placeSn (s : State) (m : List WUpdate) (v : Nat) (r : Rq) (id : TaskId) (w : Nat) : M (State × List WUpdate) :=
   -- the solver's resource rows: the placement fits into what is free right now (no saturation)
   if (match s.worker? w with
-      | some wk => (match wk.assign with | .sn _ free _ => !fitsNow free r.entries | .mn .. => false)
+      | some wk => (match wk.assign with | .sn _ free _ => !fitsNow free wk.total r.entries | .mn .. => false)
       | none => false) then .error (.panic "!bad-choice placement-overbooks") else
   match s.withWorker w (·.insertSn id r) with
   | .error e => .error e
